@@ -983,8 +983,13 @@ class Simplifier(pysmt.walkers.DagWalker):
     def walk_str_to_int(self, formula: FNode, args: List[FNode], **kwargs) -> FNode:
         s = args[0]
         if s.is_string_constant():
+            value = cast(str, s.constant_value())
+            # SMT-LIB: -1 unless the string is a non-empty sequence of
+            # digits (int() also accepts signs, spaces and underscores)
+            if len(value) == 0 or any(c not in "0123456789" for c in value):
+                return self.manager.Int(-1)
             try:
-                return self.manager.Int(int(s.constant_value()))
+                return self.manager.Int(int(value))
             except ValueError:
                 return self.manager.Int(-1)
         return self.manager.StrToInt(s)
